@@ -3,6 +3,7 @@
 package main
 
 import (
+	"crypto/sha256"
 	"math/big"
 	"math/rand"
 
@@ -243,4 +244,16 @@ func steeredScalars(r *rand.Rand, nRand int) []*big.Int {
 		put(bi(b))
 	}
 	return out
+}
+
+// taggedHash is BIP-340's tagged hash; used only to CONSTRUCT inputs (the specification recomputes every hash itself).
+func taggedHash(tag string, vals ...[]byte) []byte {
+	t := sha256.Sum256([]byte(tag))
+	h := sha256.New()
+	_, _ = h.Write(t[:])
+	_, _ = h.Write(t[:])
+	for _, v := range vals {
+		_, _ = h.Write(v)
+	}
+	return h.Sum(nil)
 }
